@@ -203,6 +203,15 @@ def type_table_sweep(child_types: list[int], value_types: list[int], *, node: in
         for vt in value_types[::3]:
             steps.append(["rx", f"{node};{ct % 255};1;0;{vt};b{vt}\n"])
             steps.append(["rx", f"{node};{ct % 255};2;0;{vt};\n"])
+    # numeric values: zeros on the even types and levels on the odd ones, then the other way round - every type is requested
+    # while its neighbours hold 0 / 1 / a level (a reply must carry ITS type's stored value whatever else the child holds)
+    for parity in (0, 1):
+        for ct in child_types:
+            for vt in value_types:
+                steps.append(["rx", f"{node};{ct % 255};1;0;{vt};{'0' if vt % 2 == parity else str(60 + vt)}\n"])
+        for ct in child_types:
+            for vt in value_types:
+                steps.append(["rx", f"{node};{ct % 255};2;0;{vt};\n"])
     return steps
 
 
